@@ -112,3 +112,17 @@ Proof.
   split; [vm_compute; reflexivity|]. split; [vm_compute; reflexivity|]. split; [left; cbn; auto|].
   apply (tdep_step g_c 0 1 0); [cbn; auto | apply tdep_one; cbn; auto].
 Qed.
+
+(* Non-vacuity 4 (trace validation accepts a PREFIX of the logged stream, nothing else): the observation of
+   replays/C05-tie-broken-1-7021bdac.json - --keep_going, f00 (label 0) fails, y00 <-> y01 (8, 9) form a cycle, the cycle
+   error was logged by checkForCycles but CloseResults came before forwardResults had forwarded it.  No run reports
+   exactly these events and ends without a lost tail (strategy 0); with a lost tail there is one (the cycle check, then
+   the exit) and its exit status is non-zero; the same events with exit status 0 are rejected. *)
+Definition g_p : graph :=
+  graph_of [0;0;0;0;0;0;0;0;0;0] [[];[];[1];[1];[1];[1];[1];[2;3;4;5;6];[2;9];[8]]
+           [true;true;true;true;true;true;true;true;true;true] [true] [8;0] true 16.
+Definition ev_p : list ev := [EvStart 0; EvStart 1; EvEnd 0 RFailed; EvEnd 1 (RBuilt Built); EvStart 2; EvEnd 2 (RBuilt Built)].
+Example C05_prefix_accepted :
+  accepts_with g_p [] ev_p [] true 0 = false /\ accepts g_p [] ev_p [] true = true /\ accepts g_p [] ev_p [] false = false /\
+  (match witness g_p [] ev_p [] 1 with Some ls => existsb (fun l => match l with LTimerCycleCheck _ => true | _ => false end) ls | None => false end) = true.
+Proof. vm_compute. repeat split; reflexivity. Qed.
